@@ -187,9 +187,10 @@ PROPS = {
         "facts": ['clause_kinds_covered'],
         "nt_rule": "unsat_graph",
         "level": "other", "module": "Resolvo.Props.C03",
-        "theorems": ["Resolvo.C03.refutes_exact", "Resolvo.C03.learnt_from_antecedents", "Resolvo.C03.clauses_truthful", "Resolvo.Graph.graphRefutes_iff"],
+        "imports": ["Resolvo.RenderTruth"],
+        "theorems": ["Resolvo.C03.edges_truthful", "Resolvo.Render.buildGraph_edges_true", "Resolvo.Render.ginv_addClause", "Resolvo.C03.refutes_exact", "Resolvo.C03.learnt_from_antecedents", "Resolvo.C03.clauses_truthful", "Resolvo.Graph.graphRefutes_iff"],
         "families": [("solve", SOLVE_Q), ("soft", SOFT_Q), ("lazy", LAZY_Q), ("hints", HINTS_Q)],
-        "explanation": "PROVED: the refutation oracle is exact (verified DPLL on a formula read from the graph alone); learnt clauses of accepted histories are entailed by their recorded antecedents; all clauses of accepted histories have true provenance. CHECKED PER RUN on every Unsolvable answer: each edge of the implementation's ConflictGraph against the provider tables, reachability from the root, graphRefutes, and that the clause ids blamed by the Conflict refute the root on their own and contain no learnt clause. NOT YET PROVED: that the model of analyze_unsolvable / Conflict::graph always produces such a graph.",
+        "explanation": "PROVED (all universes / accepted histories / blamed clause sets): edges_truthful - every edge of the conflict graph built by the exact model of Conflict::graph (Render.buildGraph: same nodes, edges and petgraph insertion order as the real graph) from clauses of an accepted history states a true fact of the provider's data (first sentence of C03, edge by edge); the refutation oracle is exact (verified DPLL on a formula read from the graph alone); learnt clauses of accepted histories are entailed by their recorded antecedents; all clauses of accepted histories have true provenance. CHECKED PER RUN on every Unsolvable answer: each edge of the implementation's ConflictGraph against the provider tables, reachability from the root, graphRefutes, and that the clause ids blamed by the Conflict refute the root on their own and contain no learnt clause. TIE: the edges of the ordered graph model and the message rendered from it equal the real graph's edges and the real message on every generated conflict. NOT PROVED: reachability of every node and refutation for every blamed set (decided exactly per run).",
     },
     "C04": {
         "nt_rule": "any",
